@@ -745,7 +745,27 @@ impl<'a> Builder<'a> {
                         let b = self.simple_block(nb2, false);
                         branches.push((c, b));
                     }
-                    let els = if self.rng.chance(1, 2) { Some(self.simple_block(1, false)) } else { None };
+                    let mut els = if self.rng.chance(1, 2) { Some(self.simple_block(1, false)) } else { None };
+                    if self.cfg.layout_variants && !self.in_function && !self.in_thread {
+                        // a branch may leave: forward divert in a flow knot, tunnel return in a tunnel
+                        let kind = self.plans[self.cur_knot].kind;
+                        let cur = self.cur_knot;
+                        let mut leave = |me: &mut Self, b: &mut Vec<Stmt>| {
+                            if me.rng.chance(1, 4) {
+                                match kind {
+                                    KnotKind::Flow => b.push(Stmt::Divert(me.forward_target(cur))),
+                                    KnotKind::Tunnel => b.push(Stmt::TunnelReturn),
+                                    _ => {}
+                                }
+                            }
+                        };
+                        for (_, b) in branches.iter_mut() {
+                            leave(self, b);
+                        }
+                        if let Some(b) = els.as_mut() {
+                            leave(self, b);
+                        }
+                    }
                     v.push(Stmt::If(branches, els));
                 }
                 8 if self.cfg.sequences => {
